@@ -21,6 +21,10 @@ func Main(cmd string, args []string) int {
 		return replay(args)
 	case "schedrun":
 		return schedChild(args)
+	case "c19fresh":
+		return c19Fresh(args)
+	case "c19hist":
+		return c19Hist(args)
 	}
 	fmt.Fprintln(os.Stderr, "unknown subcommand", cmd)
 	return 2
